@@ -62,11 +62,31 @@ Theorem C35_tempfiles_none_without_timeout : forall c tr s, crun c cinit tr = So
 Proof. exact no_timeout_disk_empty. Qed.
 Print Assumptions C35_tempfiles_none_without_timeout.
 
+(* MultipartFormWithLimit(l) on a body longer than l: whichever way the call ends (refused before parsing,
+   ReadForm fails at the cut, or ReadForm succeeds and the exhausted LimitedReader is noticed afterwards —
+   the branch that must call RemoveMultipartFormFiles), no form is kept and TMPDIR is as it was before *)
+Theorem C35_limit_exceeded_leaves_no_file : forall l r disk det s', (0 < l)%Z -> (l < rq_len (r_desc r))%Z ->
+  r_form r = None -> form_with_limit l r (Build_cstate (CHandling r) disk det) = Some s' ->
+  cur_files s' = [] /\ forall x, count_occ Z.eq_dec (c_disk s') x = count_occ Z.eq_dec disk x.
+Proof. exact fwl_limit_exceeded. Qed.
+Print Assumptions C35_limit_exceeded_leaves_no_file.
+
+(* the three outcomes around the limit, on a streamed body of 20300 bytes with a 20000-byte file part *)
+Example C35_ex_limit :
+  let c := Build_scfg true false in
+  let d := Build_reqd true true [20000]%Z true 20300 11 in
+  option_map c_disk (crun c cinit [VDispatch d; VOp (OFormLimit 20300)]) = Some [20000%Z] /\   (* len = L *)
+  option_map c_disk (crun c cinit [VDispatch d; VOp (OFormLimit 20299)]) = Some [] /\          (* len = L+1: parsed, then removed *)
+  option_map c_disk (crun c cinit [VDispatch d; VOp (OFormLimit 20298)]) = Some [] /\          (* len = L+2: ReadForm fails *)
+  option_map c_disk (crun c cinit [VDispatch d; VOp (OFormLimit 20297)]) = Some [] /\          (* len = L+3: parsed (final CRLF cut), removed *)
+  option_map c_disk (crun c cinit [VDispatch d; VOp (OFormLimit 100)]) = None.                  (* cut above the last part: not modelled *)
+Proof. vm_compute. repeat split; reflexivity. Qed.
+
 (* non-vacuity: a streamed upload spills two parts into one temporary file, which is gone at the next dispatch;
    a timed-out request keeps its file *)
 Example C35_ex_history :
   let c := Build_scfg true false in
-  let big := Build_reqd true true [5000; 5000; 9000]%Z true in
+  let big := Build_reqd true true [5000; 5000; 9000]%Z true 19500 11 in
   option_map c_disk (crun c cinit [VDispatch big; VOp OForm]) = Some [14000%Z] /\
   option_map c_disk (crun c cinit [VDispatch big; VOp OForm; VReturn true]) = Some [] /\
   option_map c_disk (crun c cinit [VDispatch big; VOp OForm; VOp ODrop]) = Some [] /\
